@@ -187,7 +187,8 @@ pub fn probe_build(c: &Case, sub: &str) -> Probe {
     if !PROBE_ENABLED.load(Ordering::SeqCst) {
         return Probe::Unavailable;
     }
-    let exe = vengine::self_exe();
+    // (a real path, not /proc/self/exe: the probe is exec'ed from inside a shell, where /proc/self/exe is the shell)
+    let Ok(exe) = std::env::current_exe() else { return Probe::Unavailable };
     let root = std::env::var("VERIF_ROOT").unwrap_or_else(|_| "/verif".into());
     let dir = std::path::Path::new(&root).join("work").join("C07-probe");
     if std::fs::create_dir_all(&dir).is_err() {
